@@ -49,6 +49,15 @@ def make_pool(rng, kinds, big=False):
     pool = {}
     for k in kinds:
         pool[k] = [container.small_block(k, rng, 0), container.small_block(k, rng, 1), container.small_block(k, rng, 1)]
+        if k == "D3":
+            # one of the marker blocks always has a link table, with links that name tracks the block does not (yet) hold —
+            # the format stores what it is given
+            for _ in range(30):
+                f, v = blocks.gen("D3", rng, fmt=1, big=4, nframes=rng.choice((1, 2, 3)))
+                if v[9]:
+                    break
+            v[8] = [2, [], [[0, len(v[9]) + 6], [len(v[9]) + 2, 1]]]
+            pool[k][2] = Spec("D3", 1, v)
     if big:
         # a payload larger than 64 KiB so that tail moves span several I/O chunks
         fmt, v = blocks.gen("EM", rng, big=2, nframes=9000)
@@ -300,13 +309,15 @@ def run_cases(chk, specs, want_acc):
         os.unlink(path)
         flat = [o for ctx in contexts for o in ctx]
         nows = [s["now"] for s in c.steps]
-        jobs.append((c.init, flat[:len(c.steps)], nows, [s["rc"] for s in c.steps]))
+        jobs.append((c.init, flat[:len(c.steps)], nows, [s["rc"] for s in c.steps], [in_readonly_context(c, k) for k in range(len(c.steps))]))
         cases.append(c)
     mcases = []
-    for init, ops, nows, rcs in jobs:
+    for init, ops, nows, rcs, ro in jobs:
         mops = []
         for k, (op, now) in enumerate(zip(ops, nows)):
             mo = container.model_op(op, now, rc=rcs[k])
+            if ro[k] and rcs[k] != 0:
+                mo = None                        # refused inside a read-only context: the model keeps its state
             mops.append(mo if mo is not None else [9])
         mcases.append((36, [container.model_state(init), mops, ACC_TYPES, DIGEST_ABOVE]))
     res = common.run_model_sharded(mcases)
@@ -411,6 +422,15 @@ def gen_specs(chk, pid):
         ops = [("add", ev, None), ("remove", twin[0][0]), ("add", rng.choice(pool["EM"][1:3]), None), ("remove", 16), ("add", ev, "back"),
                ("remove", twin[1][0])]
         specs.append(("crafted N=6 live=2 (same-size blocks)", init, [ops[:3], ops[3:]], "blocks of identical size"))
+        # ... and the plainest case: the removed block is exactly as long as everything stored behind it (one twin; two halves)
+        init2 = os.path.join(chk.work, "same%db.tdf" % j)
+        half = [(ty, 1, bytes(rng.getrandbits(8) for _ in range(size // 2)), T0 - 5, T0 - 4, T0 - 3, "half") for ty in rng.sample([t for t in OPAQUE_TYPES if t not in (twin[0][0], twin[1][0])], 2)]
+        if j % 2 and size % 2 == 0:
+            craft_file(init2, 6, [twin[0]] + half)
+        else:
+            craft_file(init2, 6, twin)
+        specs.append(("crafted N=6 (the first block as long as all that follows it)", init2, [[("remove", twin[0][0]), ("add", ev, None)], [("remove", twin[1][0])] if not (j % 2 and size % 2 == 0) else [("remove", half[0][0])]],
+                      "blocks of identical size"))
     for j, stamp in enumerate((2 ** 31 - 1, 2 ** 31 - 2, 0, 1, -1, -2 ** 31, -2 ** 31 + 1, -157766400)):
         sp = copy.deepcopy(rng.choice(pool["EV"][1:3]))
         sp.cd, sp.md = stamp, max(stamp - 1, -2 ** 31)
@@ -526,6 +546,17 @@ def gen_specs(chk, pid):
         # a library block behind the large one, then the small block in front of both goes away
         specs.append(("crafted N=5 live=2 (%d-byte block)" % size, init,
                       [[("add", pool["EV"][2], "behind"), ("remove", 13)], [("remove", 14)]], "tail of more than 4 MiB"))
+    # --- 4b'. the bytes behind the removed block are EXACTLY a power of two (what a move in pieces of 64 KiB / 1 MiB sees when the
+    #          last piece is a whole one): 2^16 and 2^20 (thorough: also 2^21 and 3 * 2^20)
+    exact = ([2 ** 16, 2 ** 20] if pid in ("C03", "C04", "C09") else []) if quick else [2 ** 16, 2 ** 20, 2 ** 21, 3 * 2 ** 20]
+    for j, size in enumerate(exact):
+        live = [(13, 1, rng.randbytes(33 + j), T0 - 5, T0 - 4, T0 - 3, "small"),
+                (14, 1, rng.randbytes(size - 1000), T0 - 5, T0 - 4, T0 - 3, "most of it"),
+                (15, 1, rng.randbytes(1000), T0 - 5, T0 - 4, T0 - 3, "the rest")]
+        init = os.path.join(chk.work, "exact%d.tdf" % j)
+        craft_file(init, 6, live)
+        specs.append(("crafted N=6 live=3 (exactly %d bytes behind the first block)" % size, init,
+                      [[("remove", 13)], [("add", pool["EV"][1], "then"), ("remove", 14)]], "the tail behind the removed block is exactly a power of two"))
     # --- 4c. (thorough tier, C03 only: about 5 minutes and 6 GB) a VALID block of more than 16 MiB added through the library,
     #          then further adds / a removal: what a size-gated streaming path for large blocks would have to get right
     if not quick and pid == "C03":
@@ -606,10 +637,20 @@ def content_violation(d, ghost):
 
 
 # ------------------------------------------------------------------ per-property judgement of one case
+def in_readonly_context(c, i):
+    """is the i-th call of the history issued inside a context entered WITHOUT allow_write()"""
+    who = getattr(c, "who", None)
+    if not who or not c.steps or i >= len(c.steps):
+        return False
+    return who[c.steps[i]["ctx"] % len(who)].endswith("readonly")
+
+
 def expected_rc(c, i):
     """the model's outcome, with the calls the model cannot express (wrong object) patched in"""
     flat = [o for ctx in c.contexts for o in ctx]
     op = flat[i]
+    if in_readonly_context(c, i) and c.steps[i]["rc"] != 0:
+        return None         # refused for want of permission (whatever else is wrong with the request): state unchanged
     if op[0] in ("add", "replace", "set") and op[1].bad in ("wrong_object", "format_int", "bad_date"):
         return None         # any exception (which one depends on what the code touches first), state unchanged
     if op[0] in ("add", "replace", "set") and getattr(op[1], "duck", False) and c.steps[i]["rc"] != 0:
@@ -639,6 +680,9 @@ def judge(chk, pid, c):
         label = "%s, step %d = %s" % (c.desc, i, container.op_label(op))
         rep = replay_of(c, i)
         raised = s["rc"] != 0
+        if in_readonly_context(c, i) and not raised:
+            chk.violation("%s: %s succeeded inside a context entered without allow_write() [%s]" % (pid, container.op_label(op), label), rep, True)
+            return
         ghost_apply(ghost, op, 0 if not raised else 1, s["now"])
         found = None          # oracle verdict on the implementation alone
         differs = None        # correspondence verdict
@@ -713,9 +757,9 @@ def judge(chk, pid, c):
             if op[0] == "add" and not raised and any(e[0] == op[1].ty() for e in s["before"]["tab"]):
                 found = found or "add_block accepted a second block of type %d" % op[1].ty()
             if op[0] == "add" and raised and op[1].bad is None and any(e[0] == op[1].ty() for e in s["before"]["tab"]) \
-                    and s["rc"] != common.ERR["ValueError"]:
+                    and s["rc"] != common.ERR["ValueError"] and not in_readonly_context(c, i):
                 found = found or "add_block of a type that is present raised %s, not ValueError" % errname(s["rc"])
-            if op[0] == "set" and op[1].bad is None and compact_before(s):
+            if op[0] == "set" and op[1].bad is None and compact_before(s) and not in_readonly_context(c, i):
                 # assigning through a convenience property replaces the block when present and adds it when absent
                 present = any(e[0] == op[1].ty() for e in s["before"]["tab"])
                 room = any(e[0] == 0 for e in s["before"]["tab"])
@@ -879,6 +923,8 @@ def run(chk, pid):
         specs = format_twin_specs(chk) + specs
     if pid in ("C03", "C09", "C04"):
         specs = zero_frame_specs(chk) + specs
+    if pid in ("C10", "C07", "C04", "C11"):
+        specs = readonly_interlude_specs(chk) + specs
     chk.rule = ("operation histories: exhaustive over {add,replace,set} x 3 types x 2 sizes + remove x 3 types up to the stated "
                 "length on crafted files N in {1,2,3} (empty / one opaque block), random histories (2-25 calls, 1-6 contexts, "
                 "all nine block types, opaque pre-populated blocks, full tables, rejected calls of every cause injected) on "
@@ -887,6 +933,10 @@ def run(chk, pid):
                 "blocks at some point or a rejected call)")
     if pid == "C04":
         huge_block_frame(chk)
+        if chk.n_found():
+            return
+    if pid in ("C03", "C04", "C09", "C10"):
+        overlapping_sessions(chk, pid)
         if chk.n_found():
             return
     BATCH = 400
@@ -1265,6 +1315,98 @@ def huge_block_frame(chk):
         if found:
             chk.violation("C04: %s [%s]" % (found, what["scenario"]), what, True)
             return
+
+
+def overlapping_sessions(chk, pid):
+    """two Tdf objects on one path whose sessions OVERLAP: the client's object A is inside a session (a write session in
+    which it has or has not mutated yet, or a plain one) when a helper opens the path itself (object B), runs a write
+    session of its own to the end and returns; A then leaves its session without touching the file again.  The file is
+    what A's calls followed by B's calls make of it (Container.step run over that sequence), sound and compact."""
+    from basictdf import Tdf
+    rng = common.rng_for(chk.seed, "overlap", pid)
+    kinds = ["EV", "EM", "D3", "FT", "PD", "OS"]
+    for j in range(9 if chk.tier == "quick" else 60):
+        pool = make_pool(rng, kinds)
+        ks = rng.sample(kinds, 4)
+        pre = [("add", pool[ks[0]][1], "there before")] if j % 3 else []
+        ops_a = [[], [("add", pool[ks[1]][1], "by A")], [("add", pool[ks[1]][1], None), ("add", pool[ks[2]][2], "by A")]][j % 3]
+        mode_a = "plain" if (not ops_a and j % 2) else "write"
+        ops_b = [[("add", pool[ks[3]][1], "by B")], [("add", pool[ks[3]][2], None), ("remove", blocks.TY[ks[1]])] if ops_a else [("add", pool[ks[3]][2], None)],
+                 [("remove", blocks.TY[ks[0]])] if pre else [("add", pool[ks[3]][1], "by B")]][(j // 3) % 3]
+        init = crafted(chk.work, "overlap_%s_%d" % (pid, j), rng.choice((4, 6, 14)), [], rng)
+        path = os.path.join(chk.work, "overlap_run_%s_%d.tdf" % (pid, j))
+        shutil.copyfile(init, path)
+        flat = pre + ops_a + ops_b
+        nows = [T0 + 1000 + 10 * k for k in range(len(flat))]
+        desc = "A: %s session%s; meanwhile B: %s; A leaves" % (mode_a, (" with " + "; ".join(container.op_label(o) for o in ops_a)) if ops_a else ", idle",
+                                                               "; ".join(container.op_label(o) for o in ops_b))
+        chk.note_case(("overlapping sessions", pid, j), True)
+        chk.count("two objects, overlapping sessions (A %s%s)" % (mode_a, ", has mutated" if ops_a else ", idle"))
+        what = {"scenario": desc, "history": [[op_json(o) for o in part] for part in (pre, ops_a, ops_b)], "slots": None}
+        rcs = []
+        try:
+            with scripted_clock():
+                k = 0
+                if pre:
+                    with Tdf(path).allow_write() as t0:
+                        for op in pre:
+                            Clock.now = nows[k]
+                            rcs.append(container.apply_op(t0, op))
+                            k += 1
+                init_state = disk_state(init)
+                a = Tdf(path)
+                with (a.allow_write() if mode_a == "write" else a) as ta:
+                    for op in ops_a:
+                        Clock.now = nows[k]
+                        rcs.append(container.apply_op(ta, op))
+                        k += 1
+                    with Tdf(path).allow_write() as tb:          # the helper: its own object, its own session
+                        for op in ops_b:
+                            Clock.now = nows[k]
+                            rcs.append(container.apply_op(tb, op))
+                            k += 1
+            final = disk_state(path)
+        except Exception as e:
+            chk.violation("%s: overlapping sessions cannot be run: %s [%s]" % (pid, common.exc_info(e), desc), what, True)
+            return
+        finally:
+            if os.path.exists(path):
+                os.unlink(path)
+        msteps = container.run_models([(init_state, flat, nows)])[0]
+        m = msteps[-1] if msteps else None
+        found = None
+        if any(rc != 0 for rc in rcs):
+            found = "a valid call was refused (outcomes %r)" % (rcs,)
+        elif container.wf_violation(final, init_state["n"]):
+            found = container.wf_violation(final, init_state["n"])
+        elif container.compact_violation(final):
+            found = container.compact_violation(final)
+        elif m is not None and (tab4(final["tab"]) != tab4(m["tab"]) or final["data"] != m["data"]):
+            found = "the file differs from what the calls make of it (table %r, expected %r; %d data bytes, expected %d)" % (
+                [e[:4] for e in final["tab"] if e[0]], [e[:4] for e in m["tab"] if e[0]], len(final["data"]), len(m["data"]))
+        if found:
+            chk.violation("%s: %s [%s]" % (pid, found, desc), what, True)
+            return
+
+
+def readonly_interlude_specs(chk):
+    """the client's one long-lived object: a write session, then a plain `with t:` in which he tries mutations all the same
+    (each refused, nothing changes), then another write session that goes on as if the interlude had not happened"""
+    rng = common.rng_for(chk.seed, "readonly")
+    out = []
+    kinds = ["EV", "EM", "D3", "FT", "PD", "OS"]
+    for j in range(6 if chk.tier == "quick" else 40):
+        pool = make_pool(rng, kinds)
+        k1, k2, k3 = rng.sample(kinds, 3)
+        first = [("add", pool[k1][1], "first"), ("add", pool[k2][1], None)]
+        tries = [("replace", pool[k1][2], None), ("set", pool[k2][2]) if k2 in SETTER else ("replace", pool[k2][2], "x"), ("remove", blocks.TY[k1]),
+                 ("add", pool[k3][1], None)]
+        rng.shuffle(tries)
+        later = [("add", pool[k3][2], "after the interlude"), ("replace", pool[k1][2], None), ("remove", blocks.TY[k2]), ("add", pool[k2][1], "again")]
+        init = crafted(chk.work, "readonly%d" % j, rng.choice((4, 5, 14)), [], rng)
+        out.append(("crafted empty", init, [first, tries[: 1 + j % 4], later], "mutations tried inside a read-only context between two write sessions",
+                    ["long", "long-readonly", "long"]))
+    return out
 
 
 def zero_frame_specs(chk):
